@@ -341,6 +341,66 @@ theorem async_destroy_complete (lg : Logger) (slots n : Nat) (prog : Nat → Lis
     simpa [qmsgs, heldCnt] using this
   · rw [← hwr]; exact async_same_as_sync lg slots n prog s hr
 
+/-- (d) Every message the writer handles is a call some producer really made: its payload
+and header are what `mkMsg` builds from call number `seq` of producer `src` (every schedule,
+at every moment). -/
+theorem async_written_are_calls (lg : Logger) (slots n : Nat) (prog : Nat → List (Env × Call))
+    (s : AState) (hr : Reach astep (ainit .fixed lg slots n prog) s) :
+    ∀ q ∈ s.written, ∃ e c, (prog q.src)[q.seq]? = some (e, c) ∧ q.msg = mkMsg lg e c := by
+  intro q hq
+  have hacc : q ∈ s.accepted := by
+    rw [async_fifo lg slots n prog s hr]; simp [hq]
+  exact (acpl_reach .fixed lg slots n prog s hr).src q (List.mem_append_left _ hacc)
+
+/-- (d) Nothing is lost silently: once destroy has returned, every call of every producer
+whose level passes the logger's threshold has either been written (exactly once, in its
+producer's order — `async_per_producer_order`) or was refused by the full channel
+(`dropped`, released — `async_destroy_complete`); every schedule, any capacity. -/
+theorem async_every_call_accounted (lg : Logger) (slots n : Nat) (prog : Nat → List (Env × Call))
+    (s : AState) (hr : Reach astep (ainit .fixed lg slots n prog) s) (hd : s.dpc = .done)
+    (i : Nat) (hi : i < s.n) (k : Nat) (e : Env) (c : Call) (hk : (prog i)[k]? = some (e, c))
+    (hl : ¬ lg.lowest > c.level) :
+    ∃ q ∈ s.written ++ s.dropped, q.src = i ∧ q.seq = k ∧ q.msg = mkMsg lg e c := by
+  have inv := ainv_reach lg slots n prog s hr
+  have cpl := acpl_reach .fixed lg slots n prog s hr
+  have hp := (producersDone_iff s).mp (inv.pdone (by rw [hd]; simp)) i hi
+  have hw := (async_destroy_complete lg slots n prog s hr hd).2.2.1
+  have hcnt : k < s.cnt i := by
+    have h1 := (cpl.rest i).1
+    rw [hp.1] at h1
+    have h2 := List.drop_eq_nil_iff.mp h1
+    have h3 : k < (prog i).length := by
+      rcases Nat.lt_or_ge k (prog i).length with h | h
+      · exact h
+      · rw [List.getElem?_eq_none h] at hk; cases hk
+    omega
+  rcases cpl.cpl i k e c hcnt hk hl with ⟨q, hq, hs, hseq⟩ | ⟨q, hq, _⟩
+  · refine ⟨q, by rw [hw]; exact hq, hs, hseq, ?_⟩
+    obtain ⟨e', c', hget, hmsg⟩ := cpl.src q hq
+    rw [hs, hseq, hk] at hget
+    injection hget with hget
+    injection hget with h1 h2
+    rw [hmsg, ← h1, ← h2]
+  · have hidle : s.ppc i = .idle := by
+      cases hx : s.ppc i <;> simp [hx, isIdle] at hp ⊢
+    rw [hidle] at hq; simp [busyMsg] at hq
+
+/-- (d) Progress of destroy (the fixed tree does not hang): while destroy is in progress and
+the writer is not held back by the harness gate, some thread can always take a step that
+strictly decreases the work left (`destroyMeasure`), and no step of any thread ever increases
+it — the only steps that leave it unchanged are destroy's own retry on a full channel and the
+gate. Hence under any schedule that does not starve the writer and destroy, destroy returns.
+(Needs at least one usable slot: channel capacity ≥ 3.) -/
+theorem async_destroy_progress (lg : Logger) (slots n : Nat) (prog : Nat → List (Env × Call))
+    (s : AState) (hr : Reach astep (ainit .fixed lg slots n prog) s)
+    (hd : s.dpc = .sending ∨ s.dpc = .joining) (hg : s.gate = true) (hslots : 1 ≤ s.slots) :
+    (∃ t s', astep s t = some (s', []) ∧ destroyMeasure s' < destroyMeasure s) ∧
+    (∀ t s' ev, astep s t = some (s', ev) → destroyMeasure s' ≤ destroyMeasure s) := by
+  have inv := ainv_reach lg slots n prog s hr
+  refine ⟨destroy_progress_step lg.handlers s inv hd hg hslots, ?_⟩
+  intro t s' ev h
+  exact destroy_measure_mono lg.handlers s s' t ev inv (by rcases hd with h | h <;> rw [h] <;> simp) h
+
 /-- (d) While destroy is waiting in `join`, the sentinel is the last element of the channel
 or the writer has already consumed it: the sentinel is never lost and nothing is queued
 behind it. -/
